@@ -4,7 +4,7 @@ After every accepted operation of a history the table invariants R6 are evaluate
 hook, attached from the harness to the public mutators' return); insert..delete_channel pairs must
 restore the earlier snapshot; a refused operation must leave all tables unchanged; at the end
 integrate() is compared with the reference simulator R3 rebuilt from the tables alone.
-Histories: exhaustive to depth 2 (quick) / depth 3 on the cell and 2 on the network (thorough) over a concrete alphabet of 21 operations on
+Histories: exhaustive to depth 2 (quick) / depth 3 on the cell and 2 on the network (thorough) over a concrete alphabet of 23 operations on
 two fixed irregular modules, random histories of length 4-25 beyond that.
 """
 import itertools
@@ -14,7 +14,7 @@ import numpy as np
 from jxmon.gen import trees
 
 PID = 19
-RULE = ("alphabet of 21 concrete operations (insert K/Km/Na on views, delete_channel K/Km on views, set, record, delete_recordings, "
+RULE = ("alphabet of 23 concrete operations (insert K/Km/Na on views, delete_channel K/Km on views, set, record, delete_recordings, "
         "stimulate, clamp, delete_stimuli, delete_clamps, make_trainable, delete_trainables, add_to_group, init_states, set_ncomp, connect) "
         "on a 4-branch cell [2,1,3,2] and a 2-cell network; exhaustive to depth 2 (quick) / depth 3 on the cell, 2 on the network (thorough); plus random histories of "
         "length 4-25 over a wider alphabet (7 channels incl. the pairs sharing a column K+Km, Na+K, CaL+CaT; three synapse types; "
@@ -45,6 +45,7 @@ ALPHABET = [
     ("clamp", "v", "last"), ("delete_stimuli", "", "all"), ("delete_clamps", "", "all"), ("make_trainable", "radius", "b0"),
     ("delete_trainables", "", "all"), ("add_to_group", "g", "b1"), ("init_states", "", "all"), ("set_ncomp", "3", "b1"), ("connect", "Iono", "c0>last"),
     ("record", "IonotropicSynapse_s", "e2"), ("clamp", "IonotropicSynapse_s", "e2"),
+    ("set_ncomp", "1", "b2"), ("add_to_group", "h", "last"),
 ]
 CHS = ["HH", "Na", "K", "Km", "CaL", "CaT", "Leak"]
 
@@ -332,6 +333,28 @@ def frame_violation(op, a, b):
     for k in ("channels", "currents", "synapses", "ncomp_per_branch"):
         if a[k] != b[k]:
             changed.add(k)
+    if op[0] == "set_ncomp" and "groups" in changed and set(a["groups"]) == set(b["groups"]):
+        # row indices are renumbered, membership is not: unchanged branches keep their member compartments, the re-discretised
+        # branch is in the group afterwards iff (part of) it was before
+        def members(snap, g):
+            nd = snap["nodes"]
+            rows = [int(r) for r in snap["groups"][g]]
+            if any(r < 0 or r >= len(nd) for r in rows):
+                return None
+            return {(int(nd["global_branch_index"].iloc[r]), int(nd["local_comp_index"].iloc[r])) for r in rows}
+        same_nc = {i for i, (x, y) in enumerate(zip(a["ncomp_per_branch"], b["ncomp_per_branch"])) if x == y}
+        for g in a["groups"]:
+            ma, mb = members(a, g), members(b, g)
+            if ma is None or mb is None:
+                changed.add(f"groups[{g}]: rows outside .nodes")
+                continue
+            if {x for x in ma if x[0] in same_nc} != {x for x in mb if x[0] in same_nc}:
+                changed.add(f"groups[{g}]: membership of branches that were not re-discretised")
+            for br in set(range(len(a["ncomp_per_branch"]))) - same_nc:
+                was = any(x[0] == br for x in ma)
+                now = {x[1] for x in mb if x[0] == br}
+                if (was and now != set(range(b["ncomp_per_branch"][br]))) or (not was and now):
+                    changed.add(f"groups[{g}]: membership of the re-discretised branch {br}")
     return sorted(changed - allowed)
 
 
